@@ -425,9 +425,9 @@ func checkFloors() []string {
 	need("crash:judged-kills", run.Scale(60, 600))
 	need("ioerr:operation-failed", run.Scale(15, 150))
 	need("conc:controlled-overlap-verified", run.Scale(4, 30))
-	need("conc:free-cases-judged", run.Scale(250, 60000))
-	need("conc:race-detector-cases", run.Scale(250, 60000))
-	need("conc:dynamic-store", run.Scale(80, 4000))
+	need("conc:free-cases-judged", run.Scale(250, 15000))
+	need("conc:race-detector-cases", run.Scale(250, 15000))
+	need("conc:dynamic-store", run.Scale(80, 1500))
 	need("stream:legacy-get", run.Scale(60, 3000))
 	need("stream:plain-vs-memory", run.Scale(60, 5000))
 	need("ref:memory-store", run.Scale(60, 5000))
